@@ -26,13 +26,20 @@ CHECKS = [
         "clauses (no other Event object, no other field changes); update_event_sets / update_in_event_sets are S |-> S + {multiset(events)} for a "
         "non-empty list and the identity otherwise (the union lemma: learning is a fold of set unions, hence independent of chunking, order and "
         "repetition); event_inputs_to_events (model loading) yields exactly the listed event types, each with exactly the listed successor / "
-        "predecessor multisets, and every loaded event satisfies the invariant - so its gate tree is recomputed from the loaded sets. A mechanical scan "
+        "predecessor multisets, and every loaded event satisfies the invariant - so its gate tree is recomputed from the loaded sets; the writing "
+        "side (Event.to_event_input, events_to_event_inputs, save_events_to_file, load_events_from_file over a ghost file system) writes one entry per "
+        "event with one (type, count) list per successor / predecessor multiset and no other, and the lemmas rep_count / entries_denote / "
+        "written_lists_denote / same_denotation_same_sets / model_round_trip give: the events loaded from what was written have the same types and the "
+        "same successor and predecessor multisets (80+ clauses in contracts/c04.py, 8 in contracts/c04_eventset.py). A mechanical scan "
         "of tel2puml/** turns every syntactic mutation site of event_sets / the cached tree into an obligation `Event.frame@<function>` that must be "
         "covered by such a contract. BOUNDED complement (not counted as proved): on the real code with real model files, for all job sets of <= 3 jobs "
         "from a 7-job family and every split into save -> load -> continue, the final model has the event types, sets, counts and gate trees of the "
         "one-shot run, and the model file round-trips.",
         "Trusted / not covered: EventSet is viewed as the multiset it denotes (equal counts <=> equal value; the concrete dict subclass and its "
-        "__eq__/__hash__/to_event_set_count_input_list are exercised only by the runtime contracts and the bounded harness, not proved); "
+        "__eq__/__hash__ are exercised only by the runtime contracts and the bounded harness, not proved; its constructor, is_subset, "
+        "to_event_set_count_input_list ... are proved under the dict view in contracts/c04_eventset.py and used in contracts/c04.py through their "
+        "abstract reading); a model file is identified with the validated EventInputsFile value (pydantic model_dump / model_validate and json trusted "
+        "to be inverse); "
         "calculate_logic_gates is an uninterpreted pure function; that the diagram depends on the model only through sets and trees is C03 (not "
         "decided); mutation through an alias of the set object is invisible to the syntactic frame scan; object allocation freshness; pyvc; z3/cvc5; the "
         "janus stand-in (bounded part).",
